@@ -212,6 +212,12 @@ func (sp *ServiceProvider) Metadata() *EntityDescriptor {
 				},
 			},
 		}
+		// Only RSA key transport is implemented (see xmlenc): a certificate with
+		// another kind of public key cannot receive encrypted assertions, so it
+		// is not advertised for encryption.
+		if _, ok := sp.Certificate.PublicKey.(*rsa.PublicKey); !ok {
+			keyDescriptors = nil
+		}
 		if len(sp.SignatureMethod) > 0 {
 			keyDescriptors = append(keyDescriptors, KeyDescriptor{
 				Use: "signing",
